@@ -258,6 +258,81 @@ func VC20_Established() {
 	}
 }
 
+// Add-path receive: one UPDATE announces the SAME prefix twice with two symbolic identifiers (IPv4 fields or MP_REACH);
+// both paths must be stored (one if the identifiers coincide), each with the message's attributes; a following UPDATE
+// withdrawing (prefix, wid) removes exactly the path whose identifier is wid.
+func VC20_SamePrefix() {
+	mp := vParam("mp") == 1
+	afi := uint16(packet.AFIIPv4)
+	if mp {
+		afi = packet.AFIIPv6
+	}
+	f := c20Family(afi, true)
+	a, b, wid, med := ndU32(), ndU32(), ndU32(), ndU32()
+	nh := bnet.IPv4(0x0a000901)
+	if mp {
+		nh = bnet.IPv6(0x20010db8ffff0000, 1)
+	}
+	nl := &packet.NLRI{Prefix: c20Pfx(afi, 0), PathIdentifier: a, Next: &packet.NLRI{Prefix: c20Pfx(afi, 0), PathIdentifier: b}}
+	u := &packet.BGPUpdate{}
+	if mp {
+		u.PathAttributes = &packet.PathAttribute{TypeCode: packet.MultiProtocolReachNLRIAttr, Next: c20Attrs(med, nil, false),
+			Value: packet.MultiProtocolReachNLRI{AFI: afi, SAFI: packet.SAFIUnicast, NextHop: &nh, NLRI: nl}}
+	} else {
+		u.PathAttributes = c20Attrs(med, &nh, true)
+		u.NLRI = nl
+	}
+	f.processUpdate(u, false, 0)
+	vReach("sameprefix")
+	count := func(id uint32) int {
+		r := c20Find(f.adjRIBIn.Dump(), c20Pfx(afi, 0))
+		if r == nil {
+			return 0
+		}
+		c := 0
+		for _, p := range r.Paths() {
+			if p.BGPPath.PathIdentifier == id && p.BGPPath.BGPPathA.MED == med {
+				c++
+			}
+		}
+		return c
+	}
+	total := func() int {
+		r := c20Find(f.adjRIBIn.Dump(), c20Pfx(afi, 0))
+		if r == nil {
+			return 0
+		}
+		return len(r.Paths())
+	}
+	vAssert(count(a) == 1, "C20.sameprefix.first.stored")
+	vAssert(count(b) == 1, "C20.sameprefix.second.stored")
+	want := 2
+	if a == b {
+		want = 1
+	}
+	vAssert(total() == want, "C20.sameprefix.count")
+	wn := &packet.NLRI{Prefix: c20Pfx(afi, 0), PathIdentifier: wid}
+	u2 := &packet.BGPUpdate{}
+	if mp {
+		u2.PathAttributes = &packet.PathAttribute{TypeCode: packet.MultiProtocolUnreachNLRIAttr, Value: packet.MultiProtocolUnreachNLRI{AFI: afi, SAFI: packet.SAFIUnicast, NLRI: wn}}
+	} else {
+		u2.WithdrawnRoutes = wn
+	}
+	f.processUpdate(u2, false, 0)
+	wantA, wantB := 1, 1
+	if wid == a {
+		wantA = 0
+	}
+	if wid == b {
+		wantB = 0
+	}
+	vAssert(count(a) == wantA, "C20.sameprefix.withdraw.first")
+	vAssert(count(b) == wantB, "C20.sameprefix.withdraw.second")
+	if wid != a && wid != b {
+		vAssert(total() == want, "C20.sameprefix.withdraw.other.id.noop")
+	}
+}
+
 func VC20_Twin() {
 	_ = c20Family(packet.AFIIPv4, false)
 	vAssert(false, "C20.twin")
